@@ -32,6 +32,7 @@ func init() {
 			gm := prog.Globals()
 			for g, v := range gm.st.gcells {
 				if strings.HasPrefix(g.Name(), "g") && len(g.Name()) == 1 {
+					fmt.Printf("global %s immut=%v shallow=%v\n", g.Name(), gm.immut[g], gm.shallow[g])
 					continue
 				}
 				k := v.Key()
